@@ -184,6 +184,8 @@ type Result struct {
 	Intrinsics       map[string]bool
 	Assumptions      map[string]bool
 	Samples          []PathSample
+	PassSamples      []Failure // sampled passing paths (inputs + model) for native validation
+	passSeen         int64
 	SolverTime       time.Duration
 	SolverQ          int
 	SolverTime2      time.Duration
@@ -346,6 +348,15 @@ func (p *explorePool) worker(id int) {
 		if pr.threads > r.MaxThreads {
 			r.MaxThreads = pr.threads
 		}
+		if pr.pass != nil {
+			// reservoir-style thinning: keep at most 24 spread over the run
+			r.passSeen++
+			if len(r.PassSamples) < 24 {
+				r.PassSamples = append(r.PassSamples, *pr.pass)
+			} else if r.passSeen%int64(1+r.passSeen/24) == 0 {
+				r.PassSamples[int(r.passSeen)%24] = *pr.pass
+			}
+		}
 		if pr.sample != nil && (len(r.Samples) < 6 || (pr.outcome != "ok" && len(r.Samples) < 12)) {
 			r.Samples = append(r.Samples, *pr.sample)
 		}
@@ -385,6 +396,7 @@ type pathResult struct {
 	notes    []string
 	sample   *PathSample
 	threads  int
+	pass     *Failure
 }
 
 func (m *Machine) newInterpreter(ex *Explorer, funcs map[*ssa.Function]bool) *interpreter {
@@ -473,6 +485,12 @@ func (m *Machine) runPath(ex *Explorer, entry *ssa.Function, item WorkItem, func
 	pr.failures = ex.failures
 	if len(pr.failures) > 0 && pr.outcome == "ok" {
 		pr.outcome = "failure"
+	}
+	if pr.outcome == "ok" && ex.reached["end"] && len(ex.notes) == 0 {
+		if m := ex.curModel(); m != nil {
+			f := ex.snapshotFailure("pass", "", "", m)
+			pr.pass = &f
+		}
 	}
 	pr.forks = ex.forks
 	pr.reached = ex.reached
